@@ -425,6 +425,13 @@ func ruleC6(p *Prog, r *Report, scc *cgSCC) {
 				return g
 			}
 			return geometric(t.Y, d+1)
+		case *ssa.Phi:
+			// max written out: n := 2*cap(x); if n < need { n = need }
+			for _, e := range t.Edges {
+				if g := geometric(e, d+1); g != "" {
+					return g
+				}
+			}
 		case *ssa.Call:
 			if b, ok := t.Call.Value.(*ssa.Builtin); ok && (b.Name() == "max" || b.Name() == "min") {
 				for _, a := range t.Call.Args {
